@@ -327,7 +327,7 @@ for _tag, _def, _cs, _cl in _EC_PARTS:
         name="trimesh2.count.tri." + _tag, units=[_TEQ, ec_step, tri_tli, tri_tln, ec_tri], defines=["TRI2_PARTS", _def],
         harness=H_EC % dict(fn="tri_ec_tri", call="tri_ec_tri(nondet_size_t(), nondet_size_t(), nondet_size_t(), tr, ec, nondet_size_t(), cum)"),
         entry="h_tri_ec_tri", enforce="tri_ec_tri", replace=["tri_ec_step"], unwindset={("tri_ec_tri", 0): 4},
-        # measured: ab 216 s (machine load 14-24), uniq 16 s, sound 71 s
+        # measured: ab 41 s (216 s with machine load 14-24), uniq 16 s, sound 71 s
         backend="cadical", timeout=900, min_obligations=30,
         clause="set_neighbors, first loop, one triangle (inner loop over the EXTRACTED table of local vertex pairs, unwound completely): the loop "
                "invariant of part `%s` is carried from triangle i to i + 1; in particular the three local edges are the three vertex pairs of the "
@@ -336,7 +336,7 @@ for _tag, _def, _cs, _cl in _EC_PARTS:
         name="trimesh2.count.loop." + _tag, units=[_TEQ, ec_step, tri_tli, tri_tln, ec_tri, ec_loop], defines=["TRI2_PARTS", _def],
         harness=H_EC % dict(fn="tri_sn_count", call="tri_sn_count(nondet_size_t(), nondet_size_t(), tr, ec, nondet_size_t(), cum)"),
         entry="h_tri_sn_count", enforce="tri_sn_count", replace=["tri_ec_tri"], loop_contracts=True,
-        # measured: ab 194 s (machine load 14-24), uniq 7 s, sound 16 s
+        # measured: ab 22 s (194 s with machine load 14-24), uniq 7 s, sound 16 s
         backend="cadical", timeout=900, min_obligations=30,
         clause="set_neighbors, first loop as a whole (any number of triangles): " + _cl))
 
